@@ -248,6 +248,7 @@ class C14Cuckoo(CuckooWorld):
 
 class C14Quotient(QuotientWorld):
     prop = "C14"
+    try_refusals = True
 
     def observe(self, step):
         if not self.claim_open:
